@@ -116,7 +116,7 @@ class Scheduler:
     self.res = Result()
     self.used = [0, 0]
     self._done_evt = _rt.Event()
-    self._h = hashlib.blake2b(digest_size=16)
+    self._hd = 0
     self.keep_events = keep_events
     self.events = [] if keep_events else None
     self.snapshot = snapshot      # callable -> hashable view of shared data
@@ -225,7 +225,7 @@ class Scheduler:
     res = self.res
     res.steps = self.steps
     res.clock = self.clock
-    res.log_digest = self._h.hexdigest()
+    res.log_digest = '%016x' % (self._hd & 0xFFFFFFFFFFFFFFFF)
     res.events = self.events
     if stuck:
       raise HarnessError(f'threads did not unwind: {stuck}')
@@ -244,10 +244,9 @@ class Scheduler:
 
   def _event(self, vt, kind, obj):
     site = _site()
-    ev = (vt.tid, kind, obj, site)
-    self._h.update(repr(ev).encode())
+    self._hd = hash((self._hd, vt.tid, kind, obj, site))
     if self.events is not None:
-      self.events.append(ev + (round(self.clock, 3),))
+      self.events.append((vt.tid, kind, obj, site, round(self.clock, 3)))
     if self.hb:
       self._hb_update(vt, kind, obj)
     self.steps += 1
@@ -483,7 +482,7 @@ class Scheduler:
               self.state_key(self.current, kind) if self.hb else None))
     self.res.choices.append(idx)
     self.used[budget] += costs[idx]
-    self._h.update(b'c%d' % idx)
+    self._hd = hash((self._hd, 'choice', idx))
     return idx
 
   def describe(self):
